@@ -62,7 +62,8 @@ func (d *drillmasterActor) onActorOf(ctx vivid.ActorContext, m *cm.ActorOf) {
 				return newActor(d.system, ability.provider)
 			}),
 			append(ability.configurator, vivid.FunctionalActorDescriptorConfigurator(func(descriptor *vivid.ActorDescriptor) {
-				descriptor.WithNamePrefix(m.Identity).WithName(m.Ability)
+				// the length keeps the name unambiguous: ("a-b", "c") and ("a", "b-c") must not both become "a-b-c"
+				descriptor.WithNamePrefix(fmt.Sprintf("%d-%s", len(m.Identity), m.Identity)).WithName(m.Ability)
 			}))...,
 		)
 		d.members[m.Ability][m.Identity] = ref
